@@ -1,7 +1,46 @@
-(* C07 — queries are pure (theorems are added as they close) *)
+(* C07 — queries are pure: no read-only history changes any later answer.
+   Statement-only file.  Machine: View/Purity.v (doc-freq / term-freq / filtered-postings caches, the
+   filter reset of a sliced view's parent, fresh output vectors); history-free answers: View/View.v.
+   PARTIAL: the two premises below are facts about the immutable postings that are proved elsewhere for
+   indexed corpora only in part (slicing twice = slicing once: codec slice theorem; phrase counts of a document
+   depend only on that document's postings: needs the phrase-chain theorem of C03).  They are explicit
+   premises here, quantified over a predicate good_posts that every postings table in the pool satisfies. *)
 From Coq Require Import ZArith.
-From SA Require Import Base.Prelude Index.Index View.View View.Purity.
+From SA Require Import Base.Prelude Index.Index View.View View.Purity View.Purity_Proofs.
 Open Scope N_scope.
+
+(* every output of every operation equals the history-free answer, in every state reachable from a pool
+   satisfying the cache invariant; arrays are only ever appended, never modified *)
+Theorem C07_step_pure_partial : forall (good_posts : posts -> N -> Prop),
+  slice_idem_hyp good_posts -> phrase_local_hyp good_posts ->
+  forall p o r p', Inv good_posts p -> step p o = (r, p') ->
+    Inv good_posts p' /\ (forall r0, pure_answer p o = Some r0 -> r = r0) /\
+    (exists extra, arrays p' = arrays p ++ extra) /\ heap_le p p'.
+Proof. exact step_pure. Qed.
+Print Assumptions C07_step_pure_partial.
+
+(* repeating a query after ANY operation sequence returns what it returned the first time *)
+Theorem C07_repeat_same_partial : forall (good_posts : posts -> N -> Prop),
+  slice_idem_hyp good_posts -> phrase_local_hyp good_posts ->
+  forall p q r1 p1 ops outs p2 r2 p3, Inv good_posts p -> pure_answer p q <> None ->
+    step p q = (r1, p1) -> run p1 ops = (outs, p2) -> step p2 q = (r2, p3) -> r2 = r1.
+Proof. exact repeat_same. Qed.
+
+Theorem C07_history_free_partial : forall (good_posts : posts -> N -> Prop),
+  slice_idem_hyp good_posts -> phrase_local_hyp good_posts ->
+  forall p q ops outs p', Inv good_posts p -> pure_answer p q <> None ->
+    run p ops = (outs, p') -> fst (step p' q) = fst (step p q).
+Proof. exact history_free. Qed.
+
+(* the invariant holds initially (no premise) and is preserved by every operation (no premise) *)
+Theorem C07_init_inv : forall (good_posts : posts -> N -> Prop) ix cg,
+  good_posts (ix_posts ix) (N.of_nat (length (ix_lens ix)) - 1) -> Inv good_posts (init_pool ix cg).
+Proof. exact init_inv. Qed.
+Print Assumptions C07_init_inv.
+Theorem C07_inv_preserved : forall (good_posts : posts -> N -> Prop) p o r p', Inv good_posts p -> step p o = (r, p') ->
+  Inv good_posts p' /\ (exists extra, arrays p' = arrays p ++ extra) /\ heap_le p p'.
+Proof. exact step_inv. Qed.
+
 (* a history that crosses the cache threshold, slices a view (resetting its parent's filter) and repeats queries *)
 Example C07_history_example :
   match index false 100 [[1;2;1;3];[];[2];[1;1;2];[3;1]] with
